@@ -73,6 +73,7 @@ def real_run(case):
 
     def fake_err(y11, y12, rtol, atol, eps=1e-7):
         e = float(((y11 - y12).abs() * scale).item())
+        e = 1e-7 if e < 1e-7 else e  # the real compute_error clamps at eps = 1e-7: the controller never sees a zero error
         trials.append(e)
         return e
 
